@@ -225,3 +225,108 @@ PROPS['C08'] = dict(
     assumptions=COMMON_ASSUME,
     extra_coverage={'buffer_capacities_checked': lambda agg, d: agg['counters'].get('buffer_capacities_checked', 0)},
 )
+
+
+# ---------------------------------------------------------------- C09
+def c09_jobs(tier):
+    fl = {'ARDUINOJSON_USE_DOUBLE': 0}
+    return [
+        Job('decode', 'c09', 'decode', q(tier, 150000, 5000000)),
+        Job('prefix', 'c09', 'prefix', q(tier, 12000, 500000)),
+        Job('corrupt', 'c09', 'corrupt', q(tier, 20000, 1000000)),
+        Job('decode-float', 'c09', 'decode', q(tier, 60000, 2000000), defines=fl),
+        Job('prefix-small', 'c09', 'prefix', q(tier, 5000, 200000), defines={'ARDUINOJSON_STRING_LENGTH_SIZE': 1, 'ARDUINOJSON_SLOT_ID_SIZE': 1, 'ARDUINOJSON_DEBUG': 1}),
+        Job('corrupt-wide', 'c09', 'corrupt', q(tier, 8000, 300000), defines={'ARDUINOJSON_STRING_LENGTH_SIZE': 4}),
+    ]
+
+
+PROPS['C09'] = dict(
+    level='exploration',
+    rule='values from gen_value (all kinds incl. bin/ext, NaN/inf, duplicate keys, chains to depth 60) encoded by an independent encoder with random LEGAL width choices '
+         '(non-minimal int and length families, f32/f64, fix/8/16/32, all ext forms); modes: decode (value, order, bin/ext re-serialized byte for byte), prefix (EVERY proper prefix of '
+         'objects <= 300 bytes, 45 sampled above: IncompleteInput, EmptyInput for length 0), corrupt (24 single-byte corruptions per object, classified by the reference decoder\'s first error); '
+         'distinct = distinct encoded object',
+    jobs=c09_jobs,
+    min_evaluations=dict(quick=150000, thorough=5000000),
+    technique='reference-oracle monitoring: independent MessagePack encoder/decoder written from the specification drive deserializeMsgPack under ASan+UBSan; results extracted through the public API',
+    level_text='Exploration: constructive for well-formed inputs (the encoded value is known), exhaustive over prefixes of each small object, sampled over corruptions.',
+    level_note='For corrupted inputs NoMemory is accepted where a corrupted length/count exceeds the configured capacity; USE_DOUBLE=0 accepts either neighbouring float (don\'t-care 11).',
+    assumptions=COMMON_ASSUME,
+    extra_coverage={'prefixes_checked': lambda agg, d: agg['counters'].get('prefixes_checked', 0), 'corruptions_checked': lambda agg, d: agg['counters'].get('corruptions_checked', 0)},
+    must_observe={'prefixes': lambda agg, d: agg['counters'].get('prefixes_checked', 0) > 0, 'bin/ext reserialization': lambda agg, d: agg['counters'].get('binext_reserialized', 0) > 0},
+)
+
+
+# ---------------------------------------------------------------- C03
+C03_CFGS = [
+    {'ARDUINOJSON_SLOT_ID_SIZE': 1, 'ARDUINOJSON_STRING_LENGTH_SIZE': 1, 'ARDUINOJSON_ENABLE_COMMENTS': 1, 'ARDUINOJSON_DEBUG': 1},
+    {'ARDUINOJSON_SLOT_ID_SIZE': 2, 'ARDUINOJSON_STRING_LENGTH_SIZE': 4, 'ARDUINOJSON_ENABLE_NAN': 1, 'ARDUINOJSON_ENABLE_INFINITY': 1, 'ARDUINOJSON_DECODE_UNICODE': 0},
+    {'ARDUINOJSON_SLOT_ID_SIZE': 4, 'ARDUINOJSON_STRING_LENGTH_SIZE': 2, 'ARDUINOJSON_ENABLE_COMMENTS': 1, 'ARDUINOJSON_ENABLE_NAN': 1, 'ARDUINOJSON_DEBUG': 1, 'ARDUINOJSON_POOL_CAPACITY': 4},
+    {'ARDUINOJSON_SLOT_ID_SIZE': 1, 'ARDUINOJSON_STRING_LENGTH_SIZE': 2, 'ARDUINOJSON_ENABLE_INFINITY': 1, 'ARDUINOJSON_DECODE_UNICODE': 0, 'ARDUINOJSON_ENABLE_COMMENTS': 1},
+    {'ARDUINOJSON_SLOT_ID_SIZE': 2, 'ARDUINOJSON_STRING_LENGTH_SIZE': 1, 'ARDUINOJSON_ENABLE_NAN': 1, 'ARDUINOJSON_DEBUG': 1, 'ARDUINOJSON_USE_DOUBLE': 0},
+    {'ARDUINOJSON_SLOT_ID_SIZE': 4, 'ARDUINOJSON_STRING_LENGTH_SIZE': 4, 'ARDUINOJSON_ENABLE_COMMENTS': 1, 'ARDUINOJSON_ENABLE_NAN': 1, 'ARDUINOJSON_ENABLE_INFINITY': 1, 'ARDUINOJSON_DEBUG': 1},
+]
+
+
+def c03_jobs(tier):
+    jobs = [
+        Job('json-default', 'c03', 'json', q(tier, 40000, 2000000), shim=True, timeout=q(tier, 900, 10000)),
+        Job('msgpack-default', 'c03', 'msgpack', q(tier, 40000, 2000000), shim=True, timeout=q(tier, 900, 10000)),
+    ]
+    cfgs = C03_CFGS[:2] if tier == 'quick' else C03_CFGS
+    for i, cfg in enumerate(cfgs):
+        jobs.append(Job('json-cfg%d' % i, 'c03', 'json', q(tier, 15000, 500000), defines=cfg, shim=(i % 2 == 0), timeout=q(tier, 900, 10000)))
+        jobs.append(Job('msgpack-cfg%d' % i, 'c03', 'msgpack', q(tier, 15000, 500000), defines=cfg, shim=(i % 2 == 0), timeout=q(tier, 900, 10000)))
+    return jobs
+
+
+PROPS['C03'] = dict(
+    level='exploration',
+    rule='inputs: valid texts/objects (generators of C01/C09, chains to depth 300), random prefixes, structure-aware mutations (byte flips, deletions, duplications, NUL insertion, '
+         'bracket flips, token deletion, escape/comment/NaN fragments, length-field corruption), random bytes, MessagePack headers announcing 2^32-1 with short bodies; x nesting limits '
+         '{0,1,2,10,254,255,random} x random filter documents (1/3). Each input is run through the sized-pointer kind and 4 (6 thorough) of 13 input kinds, each from its own exactly sized '
+         'heap copy freed right after the call; checked: code in enum, inspector invariants, traversal, serializeJson/MsgPack, clear(), reuse, same (code, document) as the sized-pointer run '
+         'on the effective bytes, counting readers never called after they reported the end; distinct = distinct (bytes, limit, filter)',
+    jobs=c03_jobs,
+    min_evaluations=dict(quick=100000, thorough=4000000),
+    technique='sanitizer-monitored hostile-input execution (g++ ASan+UBSan, exact-size input blocks, flash-pointer shim that faults on direct dereference) with a differential source-independence oracle across 13 input kinds and counting readers',
+    level_text='Exploration: memory safety and source independence on generated hostile inputs; termination is observed (watchdog), not proved.',
+    level_note='Red zones miss far over-reads; mitigated by one exact block per input kind and by counting readers/streams, which are exact. A finite heap (64 MB per request) is emulated so that corrupted length fields cannot exhaust the sandbox.',
+    assumptions=COMMON_ASSUME,
+    must_observe={'counting readers': lambda agg, d: agg['counters'].get('counted_reads', 0) > 0},
+)
+
+
+# ---------------------------------------------------------------- C06
+def c06_jobs(tier):
+    return [
+        Job('ledger-default', 'c04', 'c06hist', q(tier, 20000, 500000), leaks=True, timeout=q(tier, 900, 10000)),
+        Job('ledger-tiny-pools', 'c04', 'c06hist', q(tier, 12000, 300000), defines=TINY[0], leaks=True, timeout=q(tier, 900, 10000)),
+        Job('ledger-1byte-ids', 'c04', 'c06hist', q(tier, 12000, 300000), defines=TINY[1], leaks=True, timeout=q(tier, 900, 10000)),
+        Job('deser-bound', 'c03', 'bound', q(tier, 60000, 3000000), timeout=q(tier, 900, 10000)),
+        Job('deser-bound-wide', 'c03', 'bound', q(tier, 30000, 1000000), defines={'ARDUINOJSON_STRING_LENGTH_SIZE': 4, 'ARDUINOJSON_POOL_CAPACITY': 4}, timeout=q(tier, 900, 10000)),
+    ]
+
+
+PROPS['C06'] = dict(
+    level='exploration',
+    rule='the API histories of C04 (documents each on its own instrumented allocator; copy/move/swap exchange allocators) with an online ledger: deallocate/reallocate of a pointer not live in '
+         'that allocator, blocks live after doc.clear() (when no other document shares the allocator) or after destruction, any allocator call during read-only observation; after every step the inspector '
+         'checks: a pool was added only when the free list was exhausted, no fresh slot taken while released slots exist, string reference counts == users, no orphan or duplicate copied string; '
+         'LeakSanitizer at exit covers documents that fell back to the default allocator (moved-from). Plus deserialization of hostile inputs incl. headers announcing 2^32-1 through a counting reader: '
+         'bytes requested <= sizeofString(max) + 16 KiB + 256 x bytes consumed, and no single request sized by a header. distinct = distinct history / input',
+    jobs=c06_jobs,
+    min_evaluations=dict(quick=80000, thorough=3000000),
+    technique='online monitor over allocator events (instrumented ArduinoJson::Allocator with live-block ledger, exact-size blocks under ASan, LSan at exit) plus inspector-based slot-reuse and string-sharing predicates evaluated around every history step',
+    level_text='Exploration: the ledger and reuse predicates are exact for the executions observed; the memory bound uses deliberately generous constants (it catches allocation sized by an announced length, not constant factors).',
+    level_note='Read-only operations are the observation phase of the C04 monitor (is/as/iteration/size/nesting/serialize/measure/compare).',
+    assumptions=COMMON_ASSUME + ['MsgPackBinary/MsgPackExtension blobs are exempt from the stored-once rule (don\'t-care 10)'],
+    extra_coverage={'allocator_events': lambda agg, d: agg['counters'].get('allocator_events', 0),
+                    'slot_reuse_checks': lambda agg, d: agg['counters'].get('slot_reuse_checks', 0),
+                    'free_slot_reuses_observed': lambda agg, d: agg['counters'].get('free_slot_reuses_observed', 0),
+                    'pool_additions_observed': lambda agg, d: agg['counters'].get('pool_additions_observed', 0)},
+    must_observe={'allocator events': lambda agg, d: agg['counters'].get('allocator_events', 0) > 1000,
+                  'free slot reuse': lambda agg, d: agg['counters'].get('free_slot_reuses_observed', 0) > 0,
+                  'pool additions': lambda agg, d: agg['counters'].get('pool_additions_observed', 0) > 0,
+                  'clear ledger checks': lambda agg, d: agg['counters'].get('clear_ledger_checks', 0) > 0},
+)
